@@ -23,17 +23,19 @@ O1 == AS({Feat("g", {Loc(1, 2, "+", {}), Loc(4, 4, "+", {})}), Feat("h", {Loc(2,
 O2 == AS({Feat("r", {Loc(3, 3, "-", {}), Loc(5, 6, "-", {})}), Feat("g", {Loc(3, 7, "+", {"UNK"})})},
          <<0, 0, 2, 1, 3>>, 3)
 O3 == AS({Feat("t", {Loc(2, 2, "+", {}), Loc(4, 4, "+", {"BR"}), Loc(1, 1, "+", {})})}, <<2, 1, 3, 3>>, 1)
+\* a sequence over the ambiguous alphabet (H D V B) under reverse-strand pieces
+O4 == AS({Feat("r", {Loc(1, 2, "-", {}), Loc(4, 4, "-", {"MR"})})}, <<10, 13, 12, 11>>, 1)
 B1 == AS({Feat("g", {Loc(-1, 2, "+", {})}), Feat("h", {Loc(0, 0, "-", {"BR"}), Loc(2, 3, "-", {})})}, <<>>, 0)
 B2 == AS({}, <<>>, 0)
-InitObjs == IF Rich THEN {<<"annseq", O1>>, <<"annseq", O2>>, <<"annseq", O3>>, <<"annot", B1>>, <<"annot", B2>>}
-                    ELSE {<<"annseq", O1>>, <<"annseq", O2>>, <<"annot", B1>>}
+InitObjs == IF Rich THEN {<<"annseq", O1>>, <<"annseq", O2>>, <<"annseq", O3>>, <<"annseq", O4>>,
+                          <<"annot", B1>>, <<"annot", B2>>}
+                    ELSE {<<"annseq", O1>>, <<"annseq", O2>>, <<"annseq", O4>>, <<"annot", B1>>}
 
 (* ---------------------------------------------------------------- call universe (constant) *)
 Keys == {"g", "h", "r", "t", "x"}
 FX == Feat("x", {Loc(2, 3, "+", {})})
 FM == Feat("m", {Loc(3, 3, "+", {}), Loc(4, 4, "-", {})})          \* mixed strands: refused by getfeat
 FN == Feat("x", {Loc(-2, 0, "-", {"ML"})})
-XSeq(n) == SubSeq(<<1, 3, 0, 2, 1, 0, 3, 3>>, 1, n)
 
 SlicePairs(lo, hi) == {ab \in OptInts(lo..hi) \X OptInts(lo..hi) : Dom_SliceOrdered(ab[1], ab[2])}
 \* the machine's slice calls: every single slice is already enumerated by AnnotSlice.tla; as
@@ -87,10 +89,10 @@ Enabled(S, op, a) ==
 \* resolve the state-relative calls to calls of Apply
 Concrete(S, op, a) ==
   CASE op = "getfeatk" -> <<"getfeat", <<FeatByKey(S, a[1])>>>>
-    [] op = "setfeatk" -> <<"setfeat", <<FeatByKey(S, a[1]), XSeq(FeatLen(FeatByKey(S, a[1])))>>>>
+    [] op = "setfeatk" -> <<"setfeat", <<FeatByKey(S, a[1]), XFor(S, FeatLen(FeatByKey(S, a[1])))>>>>
     [] op = "delk"     -> <<"del", <<FeatByKey(S, a[1])>>>>
-    [] op = "setintk"  -> <<"setint", <<a[1], (SymAt(S, a[1]) + 1) % 4>>>>
-    [] op = "setslicek" -> <<"setslice", <<a[1], a[2], XSeq(SliceHi(S, a[2]) - SliceLo(S, a[1]))>>>>
+    [] op = "setintk"  -> <<"setint", <<a[1], NextSym(S, a[1])>>>>
+    [] op = "setslicek" -> <<"setslice", <<a[1], a[2], XFor(S, SliceHi(S, a[2]) - SliceLo(S, a[1]))>>>>
     [] OTHER -> <<op, a>>
 
 \* what the driver has to pass for the state-relative writes is published in `out`
@@ -120,7 +122,7 @@ Spec == Init /\ [][Next]_vars
 (* ---------------------------------------------------------------- properties *)
 InvWellFormed == WellFormedAnn(ann)
 \* the domain assumption "locations lie within the sequence" is closed under all calls
-InvLocsInSeq  == kind = "annseq" => Dom_LocsInSeq(Cur)
+InvLocsInSeq  == kind = "annseq" => (Dom_LocsInSeq(Cur) /\ Dom_Syms(seq))
 RefusalIsNoOp == [][oc' # "ok" => (ann' = ann /\ seq' = seq /\ start' = start)]_vars
 \* the laws hold at every reachable object, not only at the hand-made ones
 HereSlices == IF kind = "annot" THEN SlicePairs(-2, 4) ELSE SlicePairs(start, SeqEnd(Cur))
@@ -131,5 +133,5 @@ InvRevCompHere == kind = "annseq" => Law_RevComp(Cur, 2)
 InvGetSetHere ==
   kind = "annseq" =>
     \A f \in ann : (Dom_FeatIndex(Cur, f) /\ SingleStrand(f)) =>
-       Law_GetImplDecl(Cur, f) /\ Law_SetGet(Cur, f, XSeq(FeatLen(f)))
+       Law_GetImplDecl(Cur, f) /\ Law_SetGet(Cur, f, XFor(Cur, FeatLen(f)))
 =============================================================================
